@@ -105,6 +105,10 @@ class Ctx:
 def pat_desc(pat):
     k = pat['k']
     if k == 'variant':
+        subs = [pat_desc(sp) for _, sp in pat['subs']]
+        if subs and any(x not in ('_',) and not x.startswith('(') or x.startswith('(') and x != '(_)' for x in subs) and all(
+                sp['k'] in ('const', 'variant', 'leaf', 'deref') for _, sp in pat['subs']):
+            return '%s(%s)' % (pat['name'], ','.join(subs))
         return pat['name']
     if k in ('deref', 'derefpat'):
         return pat_desc(pat['sub'])
@@ -172,6 +176,7 @@ class Evaluator:
         p = fn['path']
         if p not in self._assigned:
             acc = set()
+            bor = set()
 
             def scan(n):
                 if isinstance(n, dict):
@@ -181,6 +186,12 @@ class Evaluator:
                             l = l['e']
                         if isinstance(l, dict) and l.get('k') in ('var', 'upvar'):
                             acc.add(l['v'])
+                    if n.get('k') in ('ref', 'rawref') and n.get('mut'):
+                        l = n['e']
+                        while isinstance(l, dict) and l.get('k') in ('deref', 'field', 'index'):
+                            l = l['e']
+                        if isinstance(l, dict) and l.get('k') in ('var', 'upvar'):
+                            bor.add(l['v'])
                     for x in n.values():
                         if isinstance(x, (dict, list)):
                             scan(x)
@@ -190,7 +201,7 @@ class Evaluator:
             scan(fn.get('thir'))
             for c in self.facts.children.get(p, []):
                 scan(c.get('thir'))
-            self._assigned[p] = acc
+            self._assigned[p] = (acc, bor - acc)
         return self._assigned[p]
 
     def input_adts(self):
@@ -398,8 +409,9 @@ class Evaluator:
                     sinkk = 'arrayvec'
                 if isinstance(sv0, tuple) and sv0[0] == 'adt' and sv0[1].endswith('SizeTracker'):
                     sinkk = 'sizetracker'
-                if (not sinkk) and s['pat']['k'] == 'bind' and s['pat']['v'] in self.assigned_vars(ctx.fn):
-                    ctx.env[s['pat']['v']] = ('mutvar', s['pat']['v'], s['pat']['name'], strip(v))
+                asg, bor = self.assigned_vars(ctx.fn)
+                if (not sinkk) and s['pat']['k'] == 'bind' and (s['pat']['v'] in asg or s['pat']['v'] in bor):
+                    ctx.env[s['pat']['v']] = ('mutvar', s['pat']['v'], s['pat']['name'], strip(v), s['pat']['v'] in asg)
                 elif sinkk and s['pat']['k'] == 'bind':
                     ctx.env[s['pat']['v']] = ('sink', s['pat']['v'])
                     ctx.sinks[s['pat']['v']] = []
@@ -624,7 +636,7 @@ class Evaluator:
                 return (('res', ('decoded', 'bytes::Bytes', u, 'bytes')), cat(pre, ['dec', 'bytes::Bytes', u, 'bytes']))
         if tr == 'Decode' and local and name in ('decode', 'decode_into', 'skip') and argv:
             ty = e['ga'][0]
-            a0 = strip(argv[0])
+            a0 = deinit(strip(argv[0]))
             u = self.uid.next()
             if self.is_input(a0):
                 mode = name
@@ -756,6 +768,23 @@ class Evaluator:
         return self.opaque('callback argument of unrecognised form', e, ctx)
 
 
+def deinit(v, depth=0):
+    """replace locals that are only mutably borrowed (never re-assigned) by their initialiser"""
+    if depth > 10 or not isinstance(v, tuple):
+        return v
+    if v and v[0] == 'mutvar' and len(v) > 4 and not v[4]:
+        return deinit(strip(v[3]), depth + 1)
+    out = []
+    for x in v:
+        if isinstance(x, tuple):
+            out.append(deinit(x, depth + 1))
+        elif isinstance(x, list):
+            out.append([deinit(y, depth + 1) if isinstance(y, tuple) else y for y in x])
+        else:
+            out.append(x)
+    return tuple(out)
+
+
 def _simplify_bool(c):
     """`cfg!(..) || x`, `cfg!(..) && x` with the literal produced by cfg!"""
     if isinstance(c, tuple) and c and c[0] == 'bin' and c[1] in ('Or', 'And'):
@@ -776,9 +805,12 @@ def _is_mut_ref(a):
         n += 1
     if isinstance(a, tuple) and a and a[0] == 'ref' and len(a) > 2 and a[2]:
         r = strip(a[1])
-        while isinstance(r, tuple) and r and r[0] in ('field', 'index'):
-            r = strip(r[1])
-        return isinstance(r, tuple) and r and r[0] in ('self', 'param', 'var', 'input', 'sink', 'elem')
+        n = 0
+        while isinstance(r, tuple) and r and n < 12 and (r[0] in ('field', 'index') or (
+                r[0] == 'call' and r[1] in ('index_mut', 'view_bits_mut', 'deref_mut', 'as_mut', 'as_mut_slice', 'borrow_mut') and r[3])):
+            r = strip(r[1]) if r[0] != 'call' else strip(r[3][0])
+            n += 1
+        return isinstance(r, tuple) and r and r[0] in ('self', 'param', 'var', 'input', 'sink', 'elem', 'mutvar')
     return False
 
 
